@@ -41,7 +41,8 @@ def confirm_finding(f, repo_root):
 
 def match_known(known, prop, func, name):
     for f in known["findings"]:
-        if f.get("property") != prop or f.get("kind", "obligation") != "obligation":
+        # an obligation-level finding is the same defect in whichever property's run the shared contract is checked
+        if f.get("kind", "obligation") != "obligation":
             continue
         if f.get("function") == func and fnmatch.fnmatch(name, f.get("obligation", "")):
             return f
@@ -98,7 +99,10 @@ def finish(prop, tier, seed, plan, results, errors, harness_out, wall, update_ba
             solver_time += o.secs
             kf = match_known(known, prop, qual, o.name) if o.status != "discharged" else None
             if kf is not None and o.status in ("failed", "undecided"):
-                kf_obligs.append((kf, qual, o))
+                if kf.get("property") == prop:
+                    kf_obligs.append((kf, qual, o))
+                # a clause whose failure is a listed finding of ANOTHER property (the contract is shared): not this
+                # property's business -- neither counted nor reported here
                 continue
             n_oblig += 1
             fmeta["obligations"] += 1
